@@ -269,3 +269,25 @@ impl State {
         Access::set_or_create(&mut self.last_access, path_id, version)
     }
 }
+
+#[cfg(feature = "verif-hooks")]
+impl State {
+    pub(super) fn verif_dump(&self) -> String {
+        let lock = match &self.lock {
+            None => "-".to_string(),
+            Some(Locked::Write(id)) => format!("W{}", id.as_usize()),
+            Some(Locked::Read(readers)) => {
+                let mut ids: Vec<usize> = readers.iter().map(|id| id.as_usize()).collect();
+                ids.sort_unstable();
+                let ids: Vec<String> = ids.iter().map(|i| i.to_string()).collect();
+                format!("R{}", ids.join("+"))
+            }
+        };
+        format!(
+            "RwLock lock={} la={} sync={}",
+            lock,
+            Access::verif_dump(&self.last_access),
+            self.synchronize.verif_dump()
+        )
+    }
+}
